@@ -273,6 +273,11 @@ for kind_, doc_, opts_ in (("ksr", KSR9, POL9), ("skr", SKR9, None)):
             if not m:
                 continue
             judge(kind_, (doc_[:m.start()] + f"<{tag}>{val}</{tag}>" + doc_[m.end():]).encode(), f"field:{kind_}:{tag}:{val[:12]}..{len(val)}", opts_)
+# with the contents-logging switches on, every line of the file is echoed to the log: what the file says must stay data
+for kind_, doc_, opts_ in (("ksr", KSR9, POL9), ("skr", SKR9, None)):
+    for pat in ("{0:0120000000}", "{0!r:>99999999}", "%(x)s %999999999d %n", "{", "}}{{", "{0.__class__.__mro__}", "${jndi:x}"):
+        prolog_ = "".join(f"<!-- records {pat} checked -->\n" for _ in range(60))
+        judge(kind_, (prolog_ + doc_).encode(), f"log-contents:{kind_}:{pat[:14]}", dict(opts_ or {}, log_contents=True), expect="object")
 # the same guarantee whatever interpreter options the tool is started with: -O / PYTHONOPTIMIZE strip assert statements
 import json as _json
 import subprocess as _sp
